@@ -251,21 +251,24 @@ def load_defs(repo):
 
 # ---------------------------------------------------------------- graph
 class Graph:
+    """nodes are *instantiated* types (name, argument terms): generic definitions are monomorphised at
+    their use sites, the way rustc checks auto traits on concrete types"""
     def __init__(self, defs):
         self.defs = defs
         self.ids, self.order = {}, []
         self.unknown = set()
 
-    def node(self, name):
-        if name not in self.ids:
-            self.ids[name] = len(self.order); self.order.append(name)
-        return self.ids[name]
+    def node(self, name, args=()):
+        key = (name, tuple(args))
+        if key not in self.ids:
+            self.ids[key] = len(self.order); self.order.append(key)
+        return self.ids[key]
 
-    def term(self, t, params):
+    def term(self, t, env):
         k = t[0]
-        if k == "ref":   return ("ref", [self.term(t[1], params)])
-        if k == "tuple": return ("both", [self.term(x, params) for x in t[1]])
-        if k == "slice": return ("both", [self.term(t[1], params)])
+        if k == "ref":   return ("ref", (self.term(t[1], env),))
+        if k == "tuple": return ("both", tuple(self.term(x, env) for x in t[1]))
+        if k == "slice": return ("both", (self.term(t[1], env),))
         if k == "fn":    return ("leaf", True, True)
         if k == "never": return ("leaf", True, True)
         if k == "ptr":   return ("leaf", False, False)
@@ -273,20 +276,26 @@ class Graph:
             txt = t[1]
             return ("leaf", bool(re.search(r"\bSend\b", txt)), bool(re.search(r"\bSync\b", txt)))
         name = t[1]
-        if name in params: return ("param", params.index(name))
-        if name == "Self": return ("self",)
+        if name in env: return env[name]
         if name not in self.defs and LEAVES.get(name) == "ss": return ("leaf", True, True)
         if name not in self.defs and LEAVES.get(name) == "none": return ("leaf", False, False)
-        args = [self.term(a, params) for a in t[2]]
+        args = tuple(self.term(a, env) for a in t[2])
         if name in self.defs:
-            return ("app", self.node(name), args)
+            return ("app", self.node(name, args))
         rule = LEAVES.get(name)
         if rule is None:
             self.unknown.add(name); return ("leaf", False, False)
-        if rule == "ss": return ("leaf", True, True)
-        if rule == "none": return ("leaf", False, False)
         if rule in ("both", "phantom"): return ("both", args)
         return (rule, args)
+
+
+def key_name(key, g):
+    name, args = key
+    def show(t):
+        if t[0] == "app": return key_name(g.order[t[1]], g)
+        if t[0] == "leaf": return "_"
+        return t[0] + "<" + ",".join(show(a) for a in t[1]) + ">"
+    return name if not args else name + "<" + ",".join(show(a) for a in args) + ">"
 
 
 def build(repo):
@@ -297,32 +306,71 @@ def build(repo):
         if r not in defs:
             raise RuntimeError(f"root type {r} not found in the source")
         g.node(r)
-    nodes = {}
+    nodes = []
     i = 0
     while i < len(g.order):
-        name = g.order[i]; i += 1
+        name, args = g.order[i]
         fields = []
         for d in defs[name]:
+            env = {p: (args[j] if j < len(args) else ("leaf", True, True)) for j, p in enumerate(d["generics"])}
+            env["Self"] = ("app", i)
             for f in d["fields"]:
                 try:
-                    fields.append(g.term(parse_type(f), d["generics"]))
+                    fields.append(g.term(parse_type(f), env))
                 except ValueError as e:
                     raise RuntimeError(f"{name} ({d['file']}): {e}")
-        nodes[name] = {"fields": fields, "files": sorted({d["file"] for d in defs[name]}),
-                       "arity": max(len(d["generics"]) for d in defs[name])}
+        nodes.append({"fields": fields, "files": sorted({d["file"] for d in defs[name]})})
+        i += 1
+        if len(g.order) > 5000:
+            raise RuntimeError("instantiation does not terminate (polymorphic recursion?)")
     if g.unknown:
         raise RuntimeError("types not defined in the crates and not in the leaf table: " + ", ".join(sorted(g.unknown)))
     return g, nodes, unsafe_impls, defs
 
 
-def lean_term(t, self_id):
+def lean_term(t):
     k = t[0]
     if k == "leaf": return f"T.leaf {'true' if t[1] else 'false'} {'true' if t[2] else 'false'}"
-    if k == "param": return f"T.param {t[1]}"
-    if k == "self": return f"T.app {self_id} (L [])"
-    if k == "app": return f"T.app {t[1]} (L [{', '.join(lean_term(a, self_id) for a in t[2])}])"
+    if k == "app": return f"T.app {t[1]} (L [])"
     ctor = {"both": "both", "ref": "ref", "arc": "arc", "mutex": "mutex", "rwlock": "rwlock", "cell": "cell"}[k]
-    return f"T.{ctor} (L [{', '.join(lean_term(a, self_id) for a in t[1])}])"
+    return f"T.{ctor} (L [{', '.join(lean_term(a) for a in t[1])}])"
+
+
+def py_eval(t, A):
+    k = t[0]
+    if k == "leaf": return (t[1], t[2])
+    def allargs(args):
+        s, y = True, True
+        for a in args:
+            x = py_eval(a, A); s, y = s and x[0], y and x[1]
+        return s, y
+    if k == "app":
+        return A[t[1]]
+    a = allargs(t[1])
+    if k == "both": return a
+    if k == "ref": return (a[1], a[1])
+    if k == "arc": return (a[0] and a[1], a[0] and a[1])
+    if k == "mutex": return (a[0], a[0])
+    if k == "rwlock": return (a[0], a[0] and a[1])
+    if k == "cell": return (a[0], False)
+    raise ValueError(k)
+
+
+def py_rounds(order, nodes):
+    """number of rounds the iteration from the top needs to become stable (only the fuel given to the Lean
+    model; Lean re-computes the iteration and checks the fixpoint itself)"""
+    A = [(True, True)] * len(order)
+    for k in range(2 * len(order) + 2):
+        B = []
+        for i, n in enumerate(order):
+            s, y = True, True
+            for f in nodes[i]["fields"]:
+                x = py_eval(f, A); s, y = s and x[0], y and x[1]
+            B.append((s, y))
+        if B == A:
+            return k, A
+        A = B
+    raise RuntimeError("no fixpoint")
 
 
 def hook_assertions(repo):
@@ -351,7 +399,11 @@ def outer_names(t):
 
 def generate(root, repo, log):
     g, nodes, unsafe_impls, defs = build(repo)
-    order = g.order
+    order = [key_name(k, g) for k in g.order]
+    base = [k[0] for k in g.order]
+    ids_by_base = {}
+    for i, b in enumerate(base):
+        ids_by_base.setdefault(b, []).append(i)
     pos, neg = hook_assertions(repo)
     asserted = set()
     for t in pos: asserted |= outer_names(t)
@@ -365,9 +417,10 @@ def generate(root, repo, log):
                         missing.append(f"{owner}.{n}")
     if missing:
         raise RuntimeError("hook H6 does not assert the component types: " + ", ".join(sorted(set(missing))))
-    comp = sorted({g.ids[n] for n in asserted if n in g.ids})
-    negs = sorted({g.ids[n] for t in neg for n in outer_names(t) if n in g.ids})
-    reach_unsafe = [u for u in unsafe_impls if u["type"] in g.ids]
+    comp = sorted({i for n in asserted for i in ids_by_base.get(n, [])})
+    negs = sorted({i for t in neg for n in outer_names(t) for i in ids_by_base.get(n, [])})
+    reach_unsafe = [u for u in unsafe_impls if u["type"] in ids_by_base]
+    rounds, pysol = py_rounds(order, nodes)
     out = ["import EmmyVerif.Model.AutoTrait",
            "/-! GENERATED by checklib/gen/tools_autotrait.py on every run from the Rust source text:",
            "the field graph of `EmmyLuaAnalysis` (every struct/enum/alias reachable through field types in",
@@ -377,19 +430,22 @@ def generate(root, repo, log):
            "def graph : Graph := ["]
     rows = []
     for i, n in enumerate(order):
-        rows.append(f"  /- {i} {n} -/ [" + ", ".join(lean_term(t, i) for t in nodes[n]["fields"]) + "]")
+        rows.append(f"  /- {i} {n} -/ [" + ", ".join(lean_term(t) for t in nodes[i]["fields"]) + "]")
     out.append(",\n".join(rows))
     out += ["]", "",
             f"/-- `{ROOT_TYPE}` -/", "def root : Nat := 0", "",
+            "/-- rounds after which the iteration from the top is stable (fuel only: the fixpoint is re-checked in Lean) -/",
+            f"def rounds : Nat := {rounds}", "",
             "/-- the component types hook H6 asserts `Send + Sync` with rustc -/",
             f"def components : List Nat := [{', '.join(map(str, comp))}]", "",
             "/-- the types hook H6 asserts to be neither `Send` nor `Sync` -/",
             f"def notThreadSafe : List Nat := [{', '.join(map(str, negs))}]", "",
             "/-- types of the graph carrying a manual `unsafe impl Send/Sync` in the source (the derivation ignores them) -/",
-            "def unsafeImpls : List Nat := [" + ", ".join(str(g.ids[u]) for u in sorted({u["type"] for u in reach_unsafe})) + "]", "",
+            "def unsafeImpls : List Nat := [" + ", ".join(str(i) for i in sorted({i for u in reach_unsafe for i in ids_by_base[u["type"]]})) + "]", "",
             "end Gen.AutoTraitGraph", ""]
     write_if_changed(os.path.join(root, "lean", "EmmyVerif", "Gen", "AutoTraitGraph.lean"), "\n".join(out))
-    info = {"generator": "tools_autotrait", "nodes": len(order), "fields": sum(len(nodes[n]["fields"]) for n in order),
+    not_ss = [order[i] for i, v in enumerate(pysol) if not (v[0] and v[1])]
+    info = {"generator": "tools_autotrait", "nodes": len(order), "rounds": rounds, "not_send_sync_by_derivation": not_ss, "fields": sum(len(n["fields"]) for n in nodes),
             "components_asserted_by_hook": len(comp), "negative_assertions": len(negs),
             "unsafe_impls_in_graph": sorted({f"{u['trait']} for {u['type']} ({u['file']})" for u in reach_unsafe}),
             "unsafe_impls_all": sorted({f"{u['trait']} for {u['type']} ({u['file']})" for u in unsafe_impls})}
